@@ -135,7 +135,15 @@ FirstByte(nul) ==
     /\ IF nul THEN st' = st /\ resp' = <<>> ELSE st' = "Closed" /\ resp' = <<"close">>
     /\ UNCHANGED <<mech, mstep, rejects, accepted, cookie>>
 
+(* anything that arrives after the connection was told to close - in the same read as the fatal
+   line or later - is ignored: no answer, never authenticated *)
+AfterClose(kind) ==
+    /\ st = "Closed"
+    /\ resp' = <<>>
+    /\ UNCHANGED <<st, mech, mstep, rejects, accepted, first, cookie>>
+
 Next ==
+    \/ \E kind \in {"login", "begin"} : AfterClose(kind)
     \/ \E nul \in BOOLEAN : FirstByte(nul)
     \/ \E m \in Mechs \cup {"none", "unknown"}, ir \in IRs, o \in Outcomes : Auth(m, ir, o)
     \/ \E p \in Payloads, o \in Outcomes : Data(p, o)
